@@ -16,9 +16,15 @@
       accepted by the code (RFC 9000 §4.5 observation);
     * enforced = advertised is proved at run level for MAX_DATA
       (`enforced_eq_advertised`), MAX_STREAMS (`streams_enforced_eq_advertised`)
-      and MAX_STREAM_DATA (`stream_enforced_eq_advertised`).
+      and MAX_STREAM_DATA (`stream_enforced_eq_advertised`);
+    * section "all operation sequences, in terms of the advertised limits" states
+      the property text itself for every state reachable from `Start` (fixes in
+      place, no stream yet) and every stream: (a) `stream_unread_within_advertised`,
+      (b) `stream_frame_against_advertised` / `reset_frame_against_advertised`,
+      (c) `connection_unread_within_advertised`, (d) `limits_never_decrease` /
+      `limits_never_decrease_run`.  The only hypotheses are on the start state.
 -/
-import AQ.Proofs.FlowStreamIds
+import AQ.Proofs.FlowRecvRun4
 
 namespace AQ.Props.C07
 open AQ AQ.Stream AQ.Flow
@@ -349,6 +355,114 @@ theorem connection_id_bounds (s : Cids) (seq rpt : Nat) (h : (rxNewConnectionId 
   have := runCid_potential _ ops hwf
   omega
 
+/-! ## all operation sequences, in terms of the advertised limits
+
+  `AdvConn c0 outs k L` / `AdvStream c0 outs sid L`: `L` is the largest of the
+  transport parameter and the values of the MAX_DATA / MAX_STREAMS /
+  MAX_STREAM_DATA frames in the outputs `outs` written so far — what the peer has
+  been told.  `Start`: the connection as constructed (no stream, nothing received),
+  the fix commits in place.  No hypothesis on the operations: the peer's frames,
+  the application calls, the packet builder (`room`), the serve order and the
+  delivery reports are arbitrary. -/
+
+/-- the connection as constructed, fix commits applied -/
+def Start (c : Conn) : Prop := FixedQ c ∧ Fresh c
+
+/-- (a) at all times, for every stream: its limit in force IS the advertised
+    per-stream limit; the bytes received and not yet read by the application
+    (highest received offset − bytes handed to the application), a fortiori the
+    bytes held in the reassembly buffer, are within it. -/
+theorem stream_unread_within_advertised (c0 : Conn) (hs : Start c0) (ops : List Op) :
+    ∀ s ∈ (runState c0 ops).streams,
+      AdvStream c0 (run c0 ops).2 s.sid s.maxLocal ∧
+      s.recv.buffer.length ≤ s.unread ∧ s.unread ≤ s.maxLocal := by
+  have h := run_rinv (rinv_init c0 hs.2.1 hs.2.2.1 hs.2.2.2.1 hs.2.2.2.2) ops
+  intro s hm
+  obtain ⟨a, ⟨b, _⟩, _⟩ := h.strm s hm
+  refine ⟨advStream_run c0 hs.1 hs.2.2.1 ops s hm, ?_, ?_⟩ <;> (unfold Strm.unread; omega)
+
+/-- (c) at all times: the connection limit in force IS the advertised MAX_DATA; the
+    bytes received and not yet read over all live streams — a fortiori all bytes
+    held for reassembly — are within it (so is the sum of all highest offsets,
+    discarded streams included). -/
+theorem connection_unread_within_advertised (c0 : Conn) (hs : Start c0) (ops : List Op) :
+    AdvConn c0 (run c0 ops).2 .data (runState c0 ops).localMaxData.value ∧
+    bufferedBytes (runState c0 ops).streams ≤ unreadBytes (runState c0 ops).streams ∧
+    unreadBytes (runState c0 ops).streams ≤ (runState c0 ops).localMaxData.value ∧
+    sumRh (runState c0 ops).streams + (runState c0 ops).goneRecv ≤ (runState c0 ops).localMaxData.value := by
+  have h := run_rinv (rinv_init c0 hs.2.1 hs.2.2.1 hs.2.2.2.1 hs.2.2.2.2) ops
+  refine ⟨advConn_run c0 hs.1.1 .data ops, bufferedBytes_le_unread h.strm, ?_, ?_⟩
+  · have := unreadBytes_le_sumRh (runState c0 ops).streams
+    have := h.ledger; have := h.within; omega
+  · have := h.ledger; have := h.within; omega
+
+/-- (b) STREAM: on every reachable state, for a representable frame on a stream id
+    the peer may use (receivable, not discarded, not a never-opened stream of this
+    endpoint), measured against the ADVERTISED limits `Ld` (MAX_DATA), `Lc`
+    (MAX_STREAMS of the id's kind), `Ls` (MAX_STREAM_DATA of the stream):
+    STREAM_LIMIT_ERROR iff it opens a stream beyond `Lc`; else FLOW_CONTROL_ERROR iff
+    it ends beyond `Ls` or the bytes it newly claims exceed `Ld`; else
+    FINAL_SIZE_ERROR iff it contradicts the known final size; else it is accepted
+    (a peer within the advertised limits is never accused).  A refused frame
+    changes nothing but the close: the state is untouched, or holds in addition
+    the empty stream object created by the lookup (`LookupOnly`). -/
+theorem stream_frame_against_advertised (c0 : Conn) (hs : Start c0) (ops : List Op)
+    (sid off : Nat) (data : Bytes) (fin : Bool) (Ld Lc Ls : Nat)
+    (ha : Advertised c0 (run c0 ops).2 sid Ld Lc Ls)
+    (henc : off + data.length ≤ UINT_VAR_MAX) (hrecv : (runState c0 ops).canReceive sid = true)
+    (hnf : sid ∉ (runState c0 ops).finishedIds)
+    (hpeer : clientInitiated sid ≠ (runState c0 ops).isClient ∨ (runState c0 ops).find? sid ≠ none) :
+    Decision (runState c0 ops) (step (runState c0 ops) (.rxStream sid off data fin)).1
+      (step (runState c0 ops) (.rxStream sid off data fin)).2.err sid (off + data.length) Ld Lc Ls
+      (frameFinalSizeError (recvFinal (runState c0 ops) sid) ⟨off, data, fin⟩ = true) :=
+  rxStream_adv c0 hs.1 hs.2.2.1 ops sid off data fin Ld Lc Ls ha henc hrecv hnf hpeer
+
+/-- (b) RESET_STREAM: the same with the final size `z` in place of the end offset. -/
+theorem reset_frame_against_advertised (c0 : Conn) (hs : Start c0) (ops : List Op)
+    (sid z : Nat) (Ld Lc Ls : Nat)
+    (ha : Advertised c0 (run c0 ops).2 sid Ld Lc Ls)
+    (hrecv : (runState c0 ops).canReceive sid = true)
+    (hnf : sid ∉ (runState c0 ops).finishedIds)
+    (hpeer : clientInitiated sid ≠ (runState c0 ops).isClient ∨ (runState c0 ops).find? sid ≠ none) :
+    Decision (runState c0 ops) (step (runState c0 ops) (.rxResetStream sid z)).1
+      (step (runState c0 ops) (.rxResetStream sid z)).2.err sid z Ld Lc Ls
+      (resetFinalSizeError (recvFinal (runState c0 ops) sid) z = true) :=
+  rxResetStream_adv c0 hs.1 hs.2.2.1 ops sid z Ld Lc Ls ha hrecv hnf hpeer
+
+/-- the advertised limits exist and are unique on every reachable state (so the
+    hypothesis `Advertised` of (b) can always be met, by exactly one triple) -/
+theorem advertised_exists (c0 : Conn) (hs : Start c0) (ops : List Op) (sid : Nat)
+    (hnf : sid ∉ (runState c0 ops).finishedIds) :
+    ∃ Ld Lc Ls, Advertised c0 (run c0 ops).2 sid Ld Lc Ls := by
+  have hd := advConn_run c0 hs.1.1 .data ops
+  have hc := advConn_run c0 hs.1.1 (countKind sid) ops
+  cases hf : (runState c0 ops).find? sid with
+  | none => exact ⟨_, _, _, hd, hc, advStream_fresh c0 hs.1 hs.2.2.1 ops sid hf hnf⟩
+  | some st =>
+    obtain ⟨hm, hsid⟩ := Conn.find?_mem hf
+    have := advStream_run c0 hs.1 hs.2.2.1 ops st hm
+    rw [hsid] at this
+    exact ⟨_, _, _, hd, hc, this⟩
+
+/-- (d) one more operation on any reachable state: every connection-level limit
+    (MAX_DATA, MAX_STREAMS bidi / uni) and the limit of every live stream does not
+    decrease; it is raised only together with the frame that carries exactly the new
+    value, and every such frame written carries the value then in force.  (A stream
+    may instead be discarded — both halves finished.) -/
+theorem limits_never_decrease (c0 : Conn) (hs : Start c0) (ops : List Op) (op : Op) :
+    (∀ k, ConnLimStep (runState c0 ops) (step (runState c0 ops) op).1 (step (runState c0 ops) op).2 k) ∧
+    (∀ s ∈ (runState c0 ops).streams,
+      s.sid ∈ (step (runState c0 ops) op).1.finishedIds ∨
+      ∃ s' ∈ (step (runState c0 ops) op).1.streams, s'.sid = s.sid ∧ s.maxLocal ≤ s'.maxLocal ∧
+        (s.maxLocal < s'.maxLocal → WFrame.maxStreamData s.sid s'.maxLocal ∈ (step (runState c0 ops) op).2.frames) ∧
+        ∀ v, WFrame.maxStreamData s.sid v ∈ (step (runState c0 ops) op).2.frames → v = s'.maxLocal) :=
+  limits_step c0 hs.1 hs.2.2.1 ops op
+
+/-- (d) over any continuation `b` of any operation sequence `a` -/
+theorem limits_never_decrease_run (c0 : Conn) (hs : Start c0) (k : LimitKind) (a b : List Op) :
+    (limOf (runState c0 a) k).value ≤ (limOf (runState c0 (a ++ b)) k).value :=
+  limits_run_mono c0 hs.1.1 k a b
+
 /-! ## non-vacuity -/
 
 /-- a server with max_data 10, max_stream_data 6: 4 bytes on stream 0 accepted,
@@ -358,6 +472,90 @@ example :
     (step c0 (.rxStream 0 0 [1, 2, 3, 4] false)).2.err = none ∧
     (step (step c0 (.rxStream 0 0 [1, 2, 3, 4] false)).1 (.rxStream 0 4 [5, 6, 7] false)).2.err =
       some (.conn FLOW_CONTROL_ERROR) := by decide
+
+/-- the run-level theorems on a concrete history.  A server advertises
+    max_data 10, max_stream_data 6, one bidirectional stream; the peer sends 6 bytes
+    on stream 0; the endpoint writes MAX_STREAM_DATA 12 and MAX_DATA 20. -/
+def demo0 : Conn :=
+  { isClient := false, localMaxData := Limit.init 10, localMaxStreamDataBidiRemote := 6,
+    localMaxStreamsBidi := Limit.init 1 }
+
+def demoOps : List Op :=
+  [.rxStream 0 0 [1, 2, 3, 4, 5, 6] false, .writeStreamLimits 0 true, .writeConnLimits true true true]
+
+/-- the demo connection is a start state (the hypotheses of the run-level theorems are satisfiable) -/
+theorem demo_start : Start demo0 := ⟨⟨rfl, rfl⟩, rfl, rfl, rfl, rfl⟩
+
+/-- the frames were written and the advertised limits are 20 / 2 / 12 -/
+theorem demo_advertised : Advertised demo0 (run demo0 demoOps).2 0 20 2 12 :=
+  ⟨by unfold AdvConn IsLargest; decide, by unfold AdvConn IsLargest; decide,
+   by unfold AdvStream IsLargest; decide⟩
+
+example : (run demo0 demoOps).2.flatMap (·.frames) = [.maxStreamData 0 12, .maxData 20, .maxStreams false 2] := by decide
+
+/-- (a), (c) hold with non-trivial content: 6 bytes unread?  no — all 6 were handed
+    to the application (in order); a gap keeps them unread -/
+example :
+    let c := runState demo0 [.rxStream 0 2 [3, 4, 5, 6] false]
+    unreadBytes c.streams = 6 ∧ bufferedBytes c.streams = 6 ∧ c.localMaxData.value = 10 := by decide
+
+example := stream_unread_within_advertised demo0 demo_start demoOps
+example := connection_unread_within_advertised demo0 demo_start demoOps
+
+/-- (b): the hypotheses of `stream_frame_against_advertised` are met on the demo
+    history and each outcome occurs -/
+example : -- ends at 13 > 12 = advertised MAX_STREAM_DATA
+    (step (runState demo0 demoOps) (.rxStream 0 6 [7, 8, 9, 10, 11, 12, 13] false)).2.err =
+      some (.conn FLOW_CONTROL_ERROR) :=
+  (stream_frame_against_advertised demo0 demo_start demoOps 0 6 [7, 8, 9, 10, 11, 12, 13] false 20 2 12
+    demo_advertised (by decide) (by decide) (by decide) (by decide)).flowControl.mpr
+    ⟨by unfold OverCount; decide, by unfold OverFlow; decide⟩
+
+example : -- ends at 12: accepted
+    (step (runState demo0 demoOps) (.rxStream 0 6 [7, 8, 9, 10, 11, 12] true)).2.err = none :=
+  (stream_frame_against_advertised demo0 demo_start demoOps 0 6 [7, 8, 9, 10, 11, 12] true 20 2 12
+    demo_advertised (by decide) (by decide) (by decide) (by decide)).accepted.mpr
+    ⟨by unfold OverCount; decide, by unfold OverFlow; decide, by decide⟩
+
+example : -- stream 8 would be the third bidirectional stream, MAX_STREAMS 2 was advertised
+    (step (runState demo0 demoOps) (.rxStream 8 0 [1] false)).2.err = some (.conn STREAM_LIMIT_ERROR) ∧
+    LookupOnly (runState demo0 demoOps) (step (runState demo0 demoOps) (.rxStream 8 0 [1] false)).1 8 := by
+  have hadv : Advertised demo0 (run demo0 demoOps).2 8 20 2 6 :=
+    ⟨by unfold AdvConn IsLargest; decide, by unfold AdvConn IsLargest; decide,
+     by unfold AdvStream IsLargest; decide⟩
+  have d := stream_frame_against_advertised demo0 demo_start demoOps 8 0 [1] false 20 2 6
+    hadv (by decide) (by decide) (by decide) (by decide)
+  have h := d.streamLimit.mpr (by unfold OverCount; decide)
+  exact ⟨h, d.refused (by rw [h]; simp)⟩
+
+example : -- a FIN at 12, then RESET_STREAM with final size 11: FINAL_SIZE_ERROR; with 13: FLOW_CONTROL_ERROR
+    let ops := demoOps ++ [.rxStream 0 6 [7, 8, 9, 10, 11, 12] true]
+    (step (runState demo0 ops) (.rxResetStream 0 11)).2.err = some (.conn FINAL_SIZE_ERROR) ∧
+    (step (runState demo0 ops) (.rxResetStream 0 13)).2.err = some (.conn FLOW_CONTROL_ERROR) := by
+  intro ops
+  have hadv : Advertised demo0 (run demo0 ops).2 0 20 2 12 :=
+    ⟨by unfold AdvConn IsLargest; decide, by unfold AdvConn IsLargest; decide,
+     by unfold AdvStream IsLargest; decide⟩
+  exact ⟨(reset_frame_against_advertised demo0 demo_start ops 0 11 20 2 12 hadv (by decide) (by decide)
+      (by decide)).finalSize.mpr ⟨by unfold OverCount; decide, by unfold OverFlow; decide, by decide⟩,
+    (reset_frame_against_advertised demo0 demo_start ops 0 13 20 2 12 hadv (by decide) (by decide)
+      (by decide)).flowControl.mpr ⟨by unfold OverCount; decide, by unfold OverFlow; decide⟩⟩
+
+example : ∃ Ld Lc Ls, Advertised demo0 (run demo0 demoOps).2 0 Ld Lc Ls :=
+  advertised_exists demo0 demo_start demoOps 0 (by decide)
+
+/-- (d): the second operation of the demo raises the stream limit 6 → 12 and
+    writes exactly that frame; the theorem instance says so -/
+example :
+    let c := runState demo0 [.rxStream 0 0 [1, 2, 3, 4, 5, 6] false]
+    (c.find? 0).map (·.maxLocal) = some 6 ∧
+    ((step c (.writeStreamLimits 0 true)).1.find? 0).map (·.maxLocal) = some 12 ∧
+    (step c (.writeStreamLimits 0 true)).2.frames = [.maxStreamData 0 12] := by decide
+
+example := limits_never_decrease demo0 demo_start [.rxStream 0 0 [1, 2, 3, 4, 5, 6] false] (.writeStreamLimits 0 true)
+example : (limOf (runState demo0 []) .data).value ≤ (limOf (runState demo0 ([] ++ demoOps)) .data).value ∧
+    (limOf (runState demo0 demoOps) .data).value = 20 :=
+  ⟨limits_never_decrease_run demo0 demo_start .data [] demoOps, by decide⟩
 
 end AQ.Props.C07
 
@@ -380,3 +578,10 @@ end AQ.Props.C07
 #print axioms AQ.Props.C07.crypto_exceeded_iff
 #print axioms AQ.Props.C07.remote_challenges_bound
 #print axioms AQ.Props.C07.connection_id_bounds
+#print axioms AQ.Props.C07.stream_unread_within_advertised
+#print axioms AQ.Props.C07.connection_unread_within_advertised
+#print axioms AQ.Props.C07.stream_frame_against_advertised
+#print axioms AQ.Props.C07.reset_frame_against_advertised
+#print axioms AQ.Props.C07.advertised_exists
+#print axioms AQ.Props.C07.limits_never_decrease
+#print axioms AQ.Props.C07.limits_never_decrease_run
